@@ -208,6 +208,9 @@ var c06Docs = []c06Doc{
 	{0, "src/Case.txt", "const USER_id = GetGetuser(xABy) HELLO\n", []string{"main"}, "Text", []string{"USER_id", "GetGetuser"}},
 	{0, "src/case.txt", "const user_id = getgetuser(xaby) hello\n", []string{"main"}, "Text", []string{"user_id", "getgetuser"}},
 	{1, "SRC/CASE.TXT", "CONST USER_ID = GETGETUSER(XABY) HELLO\n", []string{"main"}, "Text", []string{"USER_ID", "GETGETUSER"}},
+	// text that reads like regexp syntax: a pattern that is wrongly taken for a literal (or a literal wrongly taken for
+	// a pattern) selects this document
+	{1, "etc/ops.txt", "hel{2}o fo{2} wor{1,}ld us{1,2}er b{0,1}ar a{b x{,2}y k}\nhel+o fo* ba?r [fF]oo foo|zzz h.llo ^main bar$ (?i:f)oo\n", []string{"main"}, "Text", nil},
 }
 
 func (d *c06Doc) sections() []DocumentSection {
@@ -295,15 +298,24 @@ func c06HasUpperOutsideNeg(s string) bool {
 	return false
 }
 
+// true = what the implementation does for a pattern with a case-insensitive flag group, (?i:f)oo or (?i)foo: the
+// fold-case literal of the syntax tree carries the UPPER-case rune, so the pattern counts as containing an upper-case
+// letter although its text has none; reported under its own finding key
+var c06FoldGroupLenient = false
+
 func c06Match(v string, flavor int, target string) bool {
 	upper := c06HasUpper(v)
 	if c06NegClassLenient {
 		upper = c06HasUpperOutsideNeg(v)
 	}
+	if c06FoldGroupLenient && strings.Contains(v, "(?i") {
+		upper = true
+	}
 	sensitive := flavor == 0 || (flavor == 2 && upper)
-	p := v
+	// ^ and $ are read per line (a code search reports matching lines; the document does not say)
+	p := "(?m)" + v
 	if !sensitive {
-		p = "(?i)" + v
+		p = "(?im)" + v
 	}
 	re, err := regexp.Compile(p)
 	if err != nil {
@@ -403,6 +415,7 @@ type c06Gen struct {
 	r      *vfRand
 	evalOK bool // the query is also reference-evaluated on the corpus
 	rx     bool // regexp words derived from the case-pair documents
+	kinds  map[string]string // class labels of the generated words
 }
 
 var c06Plain = []string{"foo", "Foo", "hello", "Hello", "bar", "a.b", "x+y", "fo+", "[a-c]b", "main", "world", "o", "FOO", "hel+o", "q", "é"}
@@ -495,7 +508,169 @@ func (g *c06Gen) rxWord() dWord {
 	return dWord{quoted, v}
 }
 
+// the words of the corpus that the two generators below derive their patterns from
+var c06OpWords = []string{"hello", "foo", "Foo", "bar", "world", "Hello", "main", "user", "getuser", "abc", "package", "README", "HELLO", "legacy", "xaby", "FOO"}
+
+// a pattern that is a corpus word with exactly ONE kind of regexp operator in it - for every metacharacter of
+// regexp/syntax (. + * ? {n} {n,} {n,m} | ( ) [ ] ^ $ and the backslash escapes), so that "is this atom a
+// literal or a regexp" is decided for every operator on its own - and, as the other half of "patterns without
+// regex operators behave as literals", words with punctuation that is NOT an operator ({ } , alone)
+func (g *c06Gen) opWord() (dWord, string) {
+	r := g.r
+	w := r.Pick(c06OpWords)
+	n := len(w)
+	i := r.Intn(n) // position of the operand
+	dbl := -1      // a doubled letter, e.g. ll in hello
+	for k := 0; k+1 < n; k++ {
+		if w[k] == w[k+1] {
+			dbl = k
+		}
+	}
+	c := w[i : i+1]
+	var v, kind string
+	switch r.Intn(16) {
+	case 0:
+		kind, v = "dot", w[:i]+"."+w[i+1:]
+	case 1:
+		kind = "plus"
+		if dbl >= 0 && r.Bool() {
+			v = w[:dbl+1] + "+" + w[dbl+2:]
+		} else {
+			v = w[:i+1] + "+" + w[i+1:]
+		}
+	case 2:
+		kind = "star"
+		if r.Bool() {
+			v = w[:i+1] + "*" + w[i+1:]
+		} else {
+			v = w[:i] + "z*" + w[i:]
+		}
+	case 3:
+		kind = "quest"
+		if r.Bool() {
+			v = w[:i+1] + "?" + w[i+1:]
+		} else {
+			v = w[:i] + "z?" + w[i:]
+		}
+	case 4:
+		kind = "repeat-n"
+		if dbl >= 0 {
+			v = w[:dbl+1] + "{2}" + w[dbl+2:]
+		} else {
+			v = w[:i+1] + r.Pick([]string{"{1}", "{2}"}) + w[i+1:]
+		}
+	case 5:
+		kind = "repeat-n-"
+		if dbl >= 0 && r.Bool() {
+			v = w[:dbl+1] + r.Pick([]string{"{2,}", "{1,}"}) + w[dbl+2:]
+		} else {
+			v = w[:i+1] + r.Pick([]string{"{1,}", "{0,}"}) + w[i+1:]
+		}
+	case 6:
+		kind = "repeat-n-m"
+		if dbl >= 0 && r.Bool() {
+			v = w[:dbl+1] + r.Pick([]string{"{1,2}", "{2,3}", "{0,2}"}) + w[dbl+2:]
+		} else {
+			v = w[:i+1] + r.Pick([]string{"{1,2}", "{0,1}", "{1,1}"}) + w[i+1:]
+		}
+	case 7:
+		kind = "alternate"
+		v = r.Pick([]string{w + "|zzz", "zzz|" + w, w[:i+1] + "|" + w})
+	case 8:
+		kind = "group"
+		j := i + 1 + r.Intn(n-i)
+		v = w[:i] + "(" + w[i:j] + ")" + w[j:]
+	case 9:
+		kind = "class"
+		v = w[:i] + r.Pick([]string{"[" + c + "]", "[" + c + "z]", "[" + c + "-" + c + "]", "[z" + c + "]"}) + w[i+1:]
+	case 10:
+		kind, v = "begin", "^"+w
+	case 11:
+		kind, v = "end", w+"$"
+	case 12:
+		kind = "escape"
+		v = r.Pick([]string{w[:i] + `\w` + w[i+1:], `\b` + w, w + `\b`, w[:i] + fmt.Sprintf(`\x%02x`, w[i]) + w[i+1:], w[:i] + `\` + r.Pick([]string{".", "+", "{", "|"}) + w[i:], w[:i] + `\pL` + w[i+1:]})
+	case 13, 14:
+		// no operator at all: braces / commas that do not form a counted repetition are ordinary characters
+		kind = "literal-punct"
+		v = r.Pick([]string{w[:i+1] + "{" + w[i+1:], w[:i+1] + "}" + w[i+1:], w[:i+1] + "{,2}" + w[i+1:], w[:i+1] + "," + w[i+1:], "a{b", "k}", "x{,2}y", w + "{", w[:i+1] + "{x}" + w[i+1:], w[:i+1] + "-" + w[i+1:], w + "=", w[:i+1] + "#" + w[i+1:]})
+	default:
+		kind, v = "literal-word", w
+	}
+	quoted := strings.ContainsAny(v, " ()\"\\") || r.Chance(20)
+	return dWord{quoted, v}, "single-operator-atom:" + kind
+}
+
+// classes and flag groups that regexp/syntax simplifies to FOLD-CASE literals: [fF], [fF]oo, [hH][eE]llo,
+// (?i:f)oo, (?i:foo), (?i)foo - the literal carries syntax.FoldCase, its rune is the upper-case one
+func (g *c06Gen) foldWord() (dWord, string) {
+	r := g.r
+	w := r.Pick(c06OpWords)
+	if r.Chance(25) {
+		w = w[:1+r.Intn(2)] // very short: the whole pattern becomes one fold-case literal
+	}
+	n := len(w)
+	letter := func(c byte) bool { return (c|0x20) >= 'a' && (c|0x20) <= 'z' }
+	both := func(c byte) string {
+		lo, up := string(rune(c|0x20)), string(rune(c&^0x20))
+		if r.Bool() {
+			return "[" + lo + up + "]"
+		}
+		return "[" + up + lo + "]"
+	}
+	var v, kind string
+	switch r.Intn(7) {
+	case 0, 1: // a prefix of k letters as classes, the rest literal
+		kind = "class-prefix"
+		k := 1 + r.Intn(n)
+		if r.Chance(30) {
+			k = n
+			kind = "class-all"
+		}
+		for i := 0; i < n; i++ {
+			if i < k && letter(w[i]) {
+				v += both(w[i])
+			} else {
+				v += w[i : i+1]
+			}
+		}
+	case 2: // one letter somewhere
+		kind = "class-one"
+		i := r.Intn(n)
+		v = w[:i] + both(w[i]) + w[i+1:]
+	case 3: // a flag group around a part of the word
+		kind = "flag-group-part"
+		if r.Chance(60) { // lower-case words whose upper-case spelling occurs in the corpus
+			w = r.Pick([]string{"hello", "foo", "user", "getuser", "xaby"})
+			n = len(w)
+		}
+		i := r.Intn(n)
+		j := i + 1 + r.Intn(n-i)
+		v = w[:i] + "(?i:" + strings.ToLower(w[i:j]) + ")" + w[j:]
+	case 4:
+		kind, v = "flag-group-all", "(?i:"+strings.ToLower(w)+")"
+	case 5:
+		kind, v = "flag-prefix", "(?i)"+strings.ToLower(w)
+	default: // both spellings as an alternation of single letters: (?:f|F)oo
+		kind = "alt-one"
+		i := r.Intn(n)
+		v = w[:i] + "(?:" + string(rune(w[i]|0x20)) + "|" + string(rune(w[i]&^0x20)) + ")" + w[i+1:]
+	}
+	quoted := strings.ContainsAny(v, " ()\"\\") || r.Chance(20)
+	return dWord{quoted, v}, "fold-literal-atom:" + kind
+}
+
 func (g *c06Gen) word() dWord {
+	if g.r.Chance(14) {
+		w, k := g.opWord()
+		g.kinds[w.v] = k
+		return w
+	}
+	if g.r.Chance(12) {
+		w, k := g.foldWord()
+		g.kinds[w.v] = k
+		return w
+	}
 	if g.rx && g.r.Chance(40) {
 		return g.rxWord()
 	}
@@ -650,8 +825,12 @@ func c06Words(q [][]*dExpr, out map[string]bool) {
 	}
 }
 
-func c06Tables(texts map[string]bool) (string, string) {
-	var rows []string
+// query/parse.go's regexpFlags (unexported); only used for the trees of patterns that RegexpQuery turned into a
+// Substring (a Regexp carries its own tree)
+const c06RegexpFlags = syntax.ClassNL | syntax.PerlX | syntax.UnicodeGroups
+
+func c06Tables(texts map[string]bool) (string, string, string) {
+	var rows, lits []string
 	rx := map[string]string{}
 	var keys []string
 	for k := range texts {
@@ -665,9 +844,13 @@ func c06Tables(texts map[string]bool) (string, string) {
 			switch s := q.(type) {
 			case *query.Substring:
 				rq = cApp("RQLit", c06hS(s.Pattern))
+				if re, perr := syntax.Parse(t, c06RegexpFlags); perr == nil {
+					lits = append(lits, cTuple(c06hS(t), c06Re(query.OptimizeRegexp(re, c06RegexpFlags))))
+				}
 			case *query.Regexp:
 				rq = cApp("RQRx", c06Rx(s.Regexp))
 				rx[s.Regexp.String()] = c06Re(s.Regexp)
+				lits = append(lits, cTuple(c06hS(t), c06Re(s.Regexp)))
 			}
 		}
 		_, cerr := gregexp.Compile(t)
@@ -689,7 +872,11 @@ func c06Tables(texts map[string]bool) (string, string) {
 	if len(rr) > 0 {
 		rxt = cList(rr)
 	}
-	return table, rxt
+	lt := "[]"
+	if len(lits) > 0 {
+		lt = cList(lits)
+	}
+	return table, rxt, lt
 }
 
 // the syntax tree of a *syntax.Regexp as a term of coq/Model/Regex.v's [re]; the model of LowerRegexp /
@@ -914,7 +1101,7 @@ func TestVerifC06(t *testing.T) {
 	}
 	seen := map[string]bool{}
 	for i := 0; i < n; i++ {
-		g := &c06Gen{r: r, evalOK: true, rx: i%3 != 2}
+		g := &c06Gen{r: r, evalOK: true, rx: i%3 != 2, kinds: map[string]string{}}
 		depth := 1 + r.Intn(3)
 		dq := g.query(depth)
 		s := c06RenderQuery(dq, " ")
@@ -939,9 +1126,10 @@ func TestVerifC06(t *testing.T) {
 			if serr != "" {
 				vfOracleFail("search:"+serr, "searching the parsed query fails: "+serr, replay)
 			} else {
-				refDiff := func(lenientRegex, lenientNeg bool) []string {
-					c06RegexLenient = lenientRegex
-					c06NegClassLenient = lenientNeg
+				refDiff := func(lenient int) []string {
+					c06RegexLenient = lenient&1 != 0
+					c06NegClassLenient = lenient&2 != 0
+					c06FoldGroupLenient = lenient&4 != 0
 					want := map[string]bool{}
 					for di := range c06Docs {
 						dd := &c06Docs[di]
@@ -968,20 +1156,30 @@ func TestVerifC06(t *testing.T) {
 				if c06TopType(dq) == 1 && contentMatches > 0 {
 					vfOracleFail("type-filename-returns-content-matches", "type:filename query returns line matches inside file contents", replay)
 				}
-				if diff := refDiff(false, false); len(diff) > 0 {
+				if diff := refDiff(0); len(diff) > 0 {
 					replay["difference"] = diff
-					const whatRegex = "regex: is documented to match content but also selects documents by file name"
-					const whatNeg = "case:auto: a pattern whose only upper-case letters are inside a negated class [^A-Z] is searched case-insensitively"
-					switch {
-					case len(refDiff(true, false)) == 0:
-						vfOracleFail("regex-field-matches-file-names", whatRegex, replay)
-					case len(refDiff(false, true)) == 0:
-						vfOracleFail("auto-case-upper-only-in-negated-class", whatNeg, replay)
-					case len(refDiff(true, true)) == 0:
-						vfOracleFail("regex-field-matches-file-names", whatRegex, replay)
-						vfOracleFail("auto-case-upper-only-in-negated-class", whatNeg, replay)
-					default:
+					// which of the known deviations (alone or together) explain the difference?  smallest set first
+					known := []struct{ key, what string }{
+						{"regex-field-matches-file-names", "regex: is documented to match content but also selects documents by file name"},
+						{"auto-case-upper-only-in-negated-class", "case:auto: a pattern whose only upper-case letters are inside a negated class [^A-Z] is searched case-insensitively"},
+						{"auto-case-fold-flag-group-without-upper", "case:auto: a pattern with a case-insensitive flag group, (?i:f)oo, and no upper-case letter in its text is searched case-sensitively outside the group"},
+					}
+					explained := -1
+					for _, m := range []int{1, 2, 4, 3, 5, 6, 7} {
+						if len(refDiff(m)) == 0 {
+							explained = m
+							break
+						}
+					}
+					refDiff(0)
+					if explained < 0 {
 						vfOracleFail("selection-differs", "the parsed query selects other documents than the documented meaning", replay)
+					} else {
+						for b, k := range known {
+							if explained&(1<<b) != 0 {
+								vfOracleFail(k.key, k.what, replay)
+							}
+						}
 					}
 				}
 			}
@@ -1005,9 +1203,12 @@ func TestVerifC06(t *testing.T) {
 			if c := c06RxUpperClass(w); c != "" {
 				feats[c] = true
 			}
+			if k := g.kinds[w]; k != "" {
+				feats[k] = true
+			}
 		}
-		table, rxt := c06Tables(texts)
-		coq := cTuple(c06QueryCoq(dq), c06hS(s), table, rxt, res)
+		table, rxt, lits := c06Tables(texts)
+		coq := cTuple(c06QueryCoq(dq), c06hS(s), table, rxt, lits, res)
 		cls := []string{fmt.Sprintf("depth=%d", d), fmt.Sprintf("exprs=%d", min(sz, 8))}
 		for _, k := range vfSortedKeys(feats) {
 			cls = append(cls, k)
